@@ -33,9 +33,14 @@ def main(argv=None):
     cases = mod.cases(tier, seed)
     results = core.run_cases(mod, cases)
     extra = mod.post(tier, seed, cases, results) if hasattr(mod, "post") else None
+    kw = {}
+    if extra:
+        for k in ("states", "transitions", "traces"):
+            if "_" + k in extra:
+                kw[k] = extra.pop("_" + k)
     return core.finish(mod.PROP, mod.LEVEL, tier, seed, t0, cases, results, mod.RULE, mod.ASSUMPTIONS,
                        alphabet=mod.alphabet(tier) if hasattr(mod, "alphabet") else None,
-                       extra_cov=extra, samples=mod.samples(cases) if hasattr(mod, "samples") else None)
+                       extra_cov=extra, samples=mod.samples(cases) if hasattr(mod, "samples") else None, **kw)
 
 
 if __name__ == "__main__":
